@@ -213,6 +213,10 @@ func DefaultIntrinsics() map[string]Intrinsic {
 		fr.i.ps.sched.preemptAtSync = true
 		return nil
 	}
+	m[rtPkg+".PreemptAtAtomics"] = func(fr *frame, args []value) value {
+		fr.i.ps.sched.preemptAtAtomics = true
+		return nil
+	}
 	m[rtPkg+".Sync"] =func(fr *frame, args []value) value { return nil }
 	m[rtPkg+".WaitAll"] =func(fr *frame, args []value) value {
 		s := fr.i.ps.sched
@@ -281,25 +285,32 @@ func DefaultIntrinsics() map[string]Intrinsic {
 		return nil
 	}
 
-	// ---- sync/atomic (single baton: plain operations) ----
+	// ---- sync/atomic (single baton: plain operations; scheduling points only
+	// when the harness asked for them with verifrt.PreemptAtAtomics) ----
 	for _, w := range []struct {
 		suffix string
 		kind   types.BasicKind
 	}{{"Int32", types.Int32}, {"Int64", types.Int64}, {"Uint32", types.Uint32}, {"Uint64", types.Uint64}, {"Uintptr", types.Uintptr}} {
 		kind := w.kind
-		m["sync/atomic.Load"+w.suffix] = func(fr *frame, args []value) value { return *args[0].(*value) }
+		m["sync/atomic.Load"+w.suffix] = func(fr *frame, args []value) value {
+			atomicPoint(fr)
+			return *args[0].(*value)
+		}
 		m["sync/atomic.Store"+w.suffix] = func(fr *frame, args []value) value {
+			atomicPoint(fr)
 			fr.i.noteWrite(args[0].(*value))
 			*args[0].(*value) = args[1]
 			return nil
 		}
 		m["sync/atomic.Add"+w.suffix] = func(fr *frame, args []value) value {
+			atomicPoint(fr)
 			p := args[0].(*value)
 			fr.i.noteWrite(p)
 			*p = fr.i.binopTok("+", *p, args[1])
 			return *p
 		}
 		m["sync/atomic.Swap"+w.suffix] = func(fr *frame, args []value) value {
+			atomicPoint(fr)
 			p := args[0].(*value)
 			old := *p
 			fr.i.noteWrite(p)
@@ -307,6 +318,7 @@ func DefaultIntrinsics() map[string]Intrinsic {
 			return old
 		}
 		m["sync/atomic.CompareAndSwap"+w.suffix] = func(fr *frame, args []value) value {
+			atomicPoint(fr)
 			p := args[0].(*value)
 			eq := fr.i.eqDyn(types.Typ[kind], *p, args[1])
 			ok := false
@@ -582,4 +594,14 @@ func (i *interpreter) newError(msg string) value {
 	t := pkg.Type("errorString")
 	cell := value(structure{msg})
 	return iface{t: types.NewPointer(t.Type()), v: &cell}
+}
+
+// atomicPoint lets the engine switch goroutines right before an atomic
+// operation of lock-free code, if the harness asked for that. A native replay
+// cannot force such a switch: counterexamples found this way are replayed by
+// running the racing threads freely, many times (Failure.Stress).
+func atomicPoint(fr *frame) {
+	if s := fr.i.ps.sched; s != nil && s.preemptAtAtomics {
+		s.schedPoint(fr, "atomic")
+	}
 }
